@@ -149,10 +149,11 @@ type astate struct {
 	hist     []string
 	flags    []string // violations noticed on this path (unguarded advance, …)
 	nloop    int
+	tag      string // position term at which the enclosing switch read buffer[position]
 }
 
 func (s *astate) clone() *astate {
-	c := &astate{pos: s.pos, tok: s.tok, snap: map[string]string{}, know: map[string]string{}, cbind: map[string]string{}, nloop: s.nloop}
+	c := &astate{pos: s.pos, tok: s.tok, snap: map[string]string{}, know: map[string]string{}, cbind: map[string]string{}, nloop: s.nloop, tag: s.tag}
 	for k, v := range s.snap {
 		c.snap[k] = v
 	}
@@ -169,7 +170,7 @@ func (s *astate) clone() *astate {
 
 func (s *astate) key() string {
 	var sb strings.Builder
-	sb.WriteString(s.pos + "|" + s.tok + "|")
+	sb.WriteString(s.pos + "|" + s.tok + "|" + s.tag + "|")
 	var ks []string
 	for k, v := range s.snap {
 		ks = append(ks, k+"="+v)
@@ -284,6 +285,30 @@ type flow struct {
 	pos  func(token.Pos) string
 	// ruleCanFail: sound "may fail" of a callee, from the model (nil = every call may fail)
 	ruleCanFail func(name string) bool
+	// ruleFirst: FIRST set of a callee that must consume (nil = no knowledge)
+	ruleFirst func(name string) *NSet
+	// nilRule: does the rule table hold nil for this rule?
+	nilRule func(name string) bool
+	// childFirst: declared FIRST set of an opaque child (nil = unknown)
+	childFirst func(name string) *NSet
+}
+
+// childFeasible refines the knowledge at the current position by an opaque
+// child's declared FIRST set; false = the child cannot succeed here.
+func (f *flow) childFeasible(c *astate, name string) bool {
+	if f.childFirst == nil {
+		return true
+	}
+	fs := f.childFirst(name)
+	if fs == nil {
+		return true
+	}
+	yes, _ := split(f.u, c.know, c.pos, func(r rune) bool { return fs.has(r) })
+	if yes == "" {
+		return false
+	}
+	c.know[c.pos] = yes
+	return true
 }
 
 func (f *flow) isObj(e ast.Expr, name string) bool {
@@ -605,6 +630,9 @@ func (f *flow) stmt(n ast.Node, s *astate) []*astate {
 		switch {
 		case strings.HasPrefix(name, "__c"):
 			c := s.clone()
+			if !f.childFeasible(c, name) {
+				return nil
+			}
 			f.childOK(c, name)
 			return []*astate{c}
 		case strings.HasPrefix(name, "__act"), strings.HasPrefix(name, "__st"):
@@ -616,6 +644,9 @@ func (f *flow) stmt(n ast.Node, s *astate) []*astate {
 			rn := strings.TrimPrefix(name, "_rules:")
 			if f.ruleCanFail == nil || f.ruleCanFail(rn) {
 				c.flags = append(c.flags, "the result of calling rule "+rn+" is ignored although that rule can fail (the always-succeeds shortcut is unsound here)")
+			}
+			if !f.ruleFeasible(c, rn) {
+				return nil
 			}
 			f.ruleOK(c, rn)
 			return []*astate{c}
@@ -663,9 +694,11 @@ func (f *flow) stmt(n ast.Node, s *astate) []*astate {
 	case *ast.DeclStmt:
 		return []*astate{s}
 	case ast.Expr:
-		// a tag expression of a switch (buffer[position]) appears as a node: no effect
+		// the tag expression of a switch (buffer[position]) appears as a node: remember where it was read
 		if f.isBufAtPos(x) {
-			return []*astate{s}
+			c := s.clone()
+			c.tag = s.pos
+			return []*astate{c}
 		}
 	}
 	f.und = append(f.und, fmt.Sprintf("node %T not modelled: %s", n, nodeStr(f.gf.in.Fset, n)))
@@ -680,7 +713,27 @@ func (f *flow) childOK(c *astate, name string) {
 	c.pos = "S" + base + "(" + at + ")"
 }
 
+// ruleFeasible refines knowledge by the callee's FIRST set when it must consume.
+func (f *flow) ruleFeasible(c *astate, rule string) bool {
+	if f.ruleFirst == nil {
+		return true
+	}
+	fs := f.ruleFirst(rule)
+	if fs == nil {
+		return true
+	}
+	yes, _ := split(f.u, c.know, c.pos, func(r rune) bool { return fs.has(r) })
+	if yes == "" {
+		return false
+	}
+	c.know[c.pos] = yes
+	return true
+}
+
 func (f *flow) ruleOK(c *astate, rule string) {
+	if f.nilRule != nil && f.nilRule(rule) {
+		c.flags = append(c.flags, "call of rule "+rule+" whose table entry is nil (nil entry: the rule was inlined away or is unused/undefined)")
+	}
 	at := c.pos
 	c.hist = append(c.hist, fmt.Sprintf("rule%s@(%s,%s):ok", rule, at, c.tok))
 	c.tok = c.tok + "·R" + rule + "@" + at
@@ -705,11 +758,15 @@ func (f *flow) cond(e ast.Expr, s *astate) (t, fa []*astate) {
 		switch {
 		case strings.HasPrefix(name, "__c"):
 			okS := s.clone()
-			f.childOK(okS, name)
+			var oks []*astate
+			if f.childFeasible(okS, name) {
+				f.childOK(okS, name)
+				oks = append(oks, okS)
+			}
 			bad := s.clone()
 			bad.hist = append(bad.hist, fmt.Sprintf("%s@(%s,%s):fail", name, s.pos, s.tok))
 			bad.pos, bad.tok = "?", "?"
-			return []*astate{okS}, []*astate{bad}
+			return oks, []*astate{bad}
 		case strings.HasPrefix(name, "__pred"):
 			y := s.clone()
 			y.hist = append(y.hist, fmt.Sprintf("%s@%s:true", name, s.pos))
@@ -719,14 +776,18 @@ func (f *flow) cond(e ast.Expr, s *astate) (t, fa []*astate) {
 		case strings.HasPrefix(name, "_rules:"):
 			okS := s.clone()
 			rn := strings.TrimPrefix(name, "_rules:")
-			f.ruleOK(okS, rn)
+			var oks []*astate
+			if f.ruleFeasible(okS, rn) {
+				f.ruleOK(okS, rn)
+				oks = append(oks, okS)
+			}
 			if f.ruleCanFail != nil && !f.ruleCanFail(rn) {
-				return []*astate{okS}, nil
+				return oks, nil
 			}
 			bad := s.clone()
 			bad.hist = append(bad.hist, fmt.Sprintf("rule%s@(%s,%s):fail", rn, s.pos, s.tok))
 			bad.pos, bad.tok = "?", "?"
-			return []*astate{okS}, []*astate{bad}
+			return oks, []*astate{bad}
 		case obj != nil && obj == f.gf.objs["matchDot"]:
 			yes, no := split(f.u, s.know, s.pos, func(r rune) bool { return r != uEnd })
 			return f.advance(s, yes), f.stay(s, no)
@@ -759,6 +820,21 @@ func (f *flow) cond(e ast.Expr, s *astate) (t, fa []*astate) {
 			okS.pos = "Str[" + lit + "](" + s.pos + ")"
 			return []*astate{okS}, nil
 		}
+	}
+	if r, ok := runeLit(f.info, e); ok && s.tag != "" {
+		// a case value of `switch buffer[position]`
+		yes, no := split(f.u, s.know, s.tag, func(c rune) bool { return c == r })
+		if yes != "" {
+			c := s.clone()
+			c.know[s.tag] = yes
+			t = append(t, c)
+		}
+		if no != "" {
+			c := s.clone()
+			c.know[s.tag] = no
+			fa = append(fa, c)
+		}
+		return t, fa
 	}
 	if be, ok := e.(*ast.BinaryExpr); ok && (be.Op == token.LOR || be.Op == token.LAND) {
 		ta, fa0 := f.cond(be.X, s)
